@@ -44,7 +44,7 @@ META = {
         "technique": "Lean 4 proof over a pipeline model with failure schedules (case analysis); exhaustive schedule enumeration in the correspondence",
     },
     "C07": {
-        "text": "Proof: with the guards of collectArgs/walkParentAttrs regenerated, the assembled list is context values ++ ancestors (outermost first, iff the inherit flag) ++ own ++ call arguments for chains of any depth (induction); after the stable sort and the run-collapsing dedupe the emitted keys are strictly ascending (each once) and the value under a key is that of its last occurrence, for lists of any length (uses stability: core's sublist_mergeSort); the byte-wise key order is proved a total order. The regenerated fact that the code calls SortStableFunc ties the stable model to the code.",
+        "text": "Proof: with the guards of collectArgs/walkParentAttrs regenerated, the assembled list is context values ++ ancestors (outermost first, iff the inherit flag) ++ own ++ call arguments for chains of any depth (induction); after the stable sort and the run-collapsing dedupe the emitted keys are strictly ascending (each once) and the value under a key is that of its last occurrence, for lists of any length (uses stability: core's sublist_mergeSort); sorting and de-duplicating is idempotent (emit_idempotent); the byte-wise key order is proved a total order. The regenerated fact that the code calls SortStableFunc ties the stable model to the code.",
         "design_ref": "DESIGN.md §7 C07",
         "note": "Trusted: Lean kernel; extractor; that slices.SortStableFunc is stable; value identity through unique integers in the correspondence.",
         "technique": "Lean 4 proofs by induction (total order, sortedness, stability, last-wins) over a model with regenerated guards; differential random cases",
